@@ -112,7 +112,7 @@ def run_case(rng, idx, tier, lane, ctx):
         return {"status": "violated", "sample": spec, "counters": counters,
                 "witnesses": [{"what": "model construction raised", "error": short_exc(e), "tb": tb_tail(e)}]}
     for exact in (True, False):
-        cfg = {"exact": exact, "n": rng.randint(1, 3), "seed": np_seed(rng), "pre_tau": None, "epsilon": None}
+        cfg = {"exact": exact, "n": rng.randint(1, 3), "seed": np_seed(rng), "pre_tau": None, "epsilon": None, "refused_first": rng.random() < 0.2}
         if not exact and rng.random() < 0.4:
             cfg["pre_tau"] = rng.choice([0.02, 0.1, 0.4]) * float(g[-1])
         configs.append(cfg)
